@@ -185,39 +185,23 @@ def flatten_num(node) -> List[Tuple[int, Any]]:
     return out
 
 
-def node_shape_ok(node, keyfield: str, root: bool = True) -> bool:
-    """Exactly one of Nums|Names / Kids (a root may be an empty leaf)."""
-    has_n = node.get(keyfield) is not None
-    has_k = node.get("kids") is not None
-    if has_n == has_k:
+def num_shape_ok(node) -> bool:
+    """No node carries both Nums and Kids (mirror of Spec.Labels.shapeOk)."""
+    if node.get("nums") and node.get("kids"):
         return False
-    if has_k:
-        if not node["kids"]:
-            return False
-        return all(node_shape_ok(c, keyfield, False) for c in node["kids"])
-    if not root and not node[keyfield]:
-        return False
-    return True
+    return all(num_shape_ok(c) for c in node.get("kids") or [])
 
 
 def labels_domain(case) -> bool:
+    """Mirror of Spec.Labels.domain: conforming shape, keys ascending, first key 0, St >= 1."""
     tree = case["tree"]
-    if not node_shape_ok(tree, "nums"):
+    if not num_shape_ok(tree):
         return False
     flat = flatten_num(tree)
     keys = [k for k, _ in flat]
     if not keys or keys[0] != 0 or any(a >= b for a, b in zip(keys, keys[1:])):
         return False
-    for _, ld in flat:
-        if ld.get("S") not in (None, "D", "R", "r", "A", "a"):
-            return False
-        if ld.get("St") is not None and ld["St"] < 1:
-            return False
-        if ld.get("P") is not None and spec_text(unh(ld["P"])) is None:
-            return False
-        if ld.get("junk"):
-            return False
-    return True
+    return all((ld.get("St") if ld.get("St") is not None else 1) >= 1 for _, ld in flat)
 
 
 def spec_labels(case, count: int, alpha=spec_alpha) -> Optional[List[str]]:
@@ -233,6 +217,8 @@ def spec_labels(case, count: int, alpha=spec_alpha) -> Optional[List[str]]:
         if num is None:
             return None
         pre = spec_text(unh(ld["P"])) if ld.get("P") is not None else []
+        if pre is None:
+            return None
         out.append(cps_list(pre + [ord(c) for c in num]))
     return out
 
@@ -255,44 +241,39 @@ def flatten_names(node) -> List[Tuple[bytes, Any]]:
     return out
 
 
-def names_domain(case) -> bool:
-    tree = case.get("tree")
-    if tree is None:
+def name_wf(node, root: bool) -> bool:
+    """Mirror of Spec.NameTree.wf."""
+    lim = node.get("limits")
+    names = node.get("names")
+    kids = node.get("kids") or []
+    if not root and lim is None:
+        return False
+    if lim is not None:
+        lo, hi = unh(lim[0]), unh(lim[1])
+        if any(k < lo or hi < k for k, _ in flatten_names(node)):
+            return False
+    if names is not None and not kids:
+        ks = [unh(k) for k, _ in names]
+        return (all(a < b for a, b in zip(ks, ks[1:])) and all(val_truthy(v) for _, v in names)
+                and (root or bool(names)))
+    if names is None and kids:
+        for i, c in enumerate(kids):
+            if not name_wf(c, False):
+                return False
+            hi = unh(c["limits"][1])
+            for c2 in kids[i + 1:]:
+                if c2.get("limits") is None or not hi < unh(c2["limits"][0]):
+                    return False
         return True
-    if case.get("names_cat_missing"):
-        return True
-    if not node_shape_ok(tree, "names"):
-        return False
-    flat = flatten_names(tree)
-    keys = [k for k, _ in flat]
-    if any(a >= b for a, b in zip(keys, keys[1:])):
-        return False
-    if any(not val_truthy(v) for _, v in flat):
-        return False
+    return False
 
-    def limits_ok(node, root):
-        sub = [k for k, _ in flatten_names(node)]
-        lim = node.get("limits")
-        if lim is None:
-            if not root:
-                return False
-        else:
-            lo, hi = unh(lim[0]), unh(lim[1])
-            if sub and (lo > sub[0] or hi < sub[-1]):
-                return False
-        if node.get("kids"):
-            prev_hi = None
-            for c in node["kids"]:
-                if not limits_ok(c, False):
-                    return False
-                clo, chi = unh(c["limits"][0]), unh(c["limits"][1])
-                if prev_hi is not None and not prev_hi < clo:
-                    return False
-                if clo > chi:
-                    return False
-                prev_hi = chi
-        return True
-    return limits_ok(tree, True)
+
+def names_domain(case) -> bool:
+    """Mirror of Spec.NameTree.domain."""
+    tree = case.get("tree")
+    if tree is not None and not case.get("names_cat_missing") and not name_wf(tree, True):
+        return False
+    return all(val_truthy(v) for v in (case.get("dict") or {}).values())
 
 
 # ----------------------------------------------------------------------------- PDF construction
@@ -606,8 +587,6 @@ def spec_dests(case) -> Optional[List[str]]:
     tree = case.get("tree")
     flat = dict(flatten_names(tree)) if (tree is not None and not case.get("names_cat_missing")) else {}
     dd = case.get("dict") or {}
-    if any(not val_truthy(v) for v in dd.values()):
-        return None
     out = []
     for q in case["queries"]:
         key = query_key(q)
@@ -774,7 +753,7 @@ def gen_label_dict(rng, wild: bool) -> Dict[str, Any]:
     if wild and rng.random() < 0.2:
         ld["St"] = rng.choice([0, -1, -5, 3999, 4000, 4001, 5000])
     if wild and rng.random() < 0.03:
-        ld["junk"] = True
+        ld = {"junk": True, "S": None, "P": None, "St": None}     # the value is not a dictionary
     ld["ind"] = rng.random() < 0.3
     ld["type"] = rng.random() < 0.3
     ld["hexstr"] = rng.random() < 0.3
@@ -1076,16 +1055,30 @@ def gen_outline_case(rng, wild: bool, special: Optional[str] = None) -> Dict[str
 
 
 def outline_domain(case) -> bool:
-    """Every item has a Title and a Dest or an A (DESIGN section 7, interpretive choices), Last present."""
+    """Mirror of Spec.Outline.item: every item has a Title (a valid text string) and a Dest or an A
+    (DESIGN section 7, interpretive choices)."""
     stack = list(case["forest"])
     while stack:
         x = stack.pop()
-        if x.get("t") is None or (x.get("d") is None and x.get("a") is None) or x.get("nolast"):
+        if x.get("t") is None or (x.get("d") is None and x.get("a") is None):
             return False
         if spec_text(unh(x["t"])) is None:
             return False
         stack.extend(x["kids"])
-    return not case.get("no_outlines")
+    return True
+
+
+def outline_conformant(case) -> bool:
+    """The First/Last/Next encoding written to the file is the conforming one."""
+    if case.get("no_outlines"):
+        return False
+    stack = list(case["forest"])
+    while stack:
+        x = stack.pop()
+        if x.get("nolast"):
+            return False
+        stack.extend(x["kids"])
+    return True
 
 
 def spec_outline_lines(case) -> Optional[List[str]]:
@@ -1258,10 +1251,13 @@ def eval_outline(ctx: C.Ctx, batch: Batch, case, wild: bool) -> None:
         root = sx_outline_root(case, it)
         batch.add("outline " + root, "outline", case if n < 200 else {"kind": "outline", "items": n},
                   internalise(impl), "model")
+        if exp is not None and not wild and outline_conformant(case):
+            batch.add("outline.enc " + sx_forest(case["forest"], it, case.get("npages", 2)), "outline.enc",
+                      case if n < 200 else {"kind": "outline", "items": n}, internalise(impl), "model")
         batch.add("spec.outline " + sx_forest(case["forest"], it, case.get("npages", 2)), "spec.outline",
                   case if n < 200 else {"kind": "outline", "items": n},
                   "outside-domain" if exp is None else internalise(exp), "spec")
-    if exp is not None and not wild and impl != exp:
+    if exp is not None and not wild and outline_conformant(case) and impl != exp:
         small = case
         if impl and impl[-1] == "E:RecursionError":
             tags = {"component": "outline", "exception": "RecursionError", "siblings": len(case["forest"])}
@@ -1302,7 +1298,6 @@ def eval_names(ctx: C.Ctx, batch: Batch, case, wild: bool) -> None:
     npages = case.get("npages", 3)
     # register expected values first so that ids are stable
     tsx = "-" if (tree is None or case.get("names_cat_missing")) else sx_nametree(tree, it, npages)
-    has_names = "1" if tree is not None else "0"
     dsx = "-" if case.get("dict") is None else "(D" + "".join(
         " (u:%s %d)" % (k.encode("utf-8").hex(), it.get(expected_dest_canon(v, npages), val_truthy(v)))
         for k, v in case["dict"].items()) + ")"
@@ -1319,8 +1314,15 @@ def eval_names(ctx: C.Ctx, batch: Batch, case, wild: bool) -> None:
         key = ("b:" + q[1]) if q[0] == "b" else ("u:" + q[1].encode("utf-8").hex())
         if key in ("b:", "u:"):
             key += "-"
-        batch.add("dest %s %s %s %s" % (key, has_names, tsx, dsx), "dest", {"case": case, "query": q},
+        batch.add("dest %s %s %s" % (key, tsx, dsx), "dest", {"case": case, "query": q},
                   internalise(r), "model")
+    if exp is None and case["queries"]:
+        q = case["queries"][0]
+        key = ("b:" + q[1]) if q[0] == "b" else ("u:" + q[1].encode("utf-8").hex())
+        if key in ("b:", "u:"):
+            key += "-"
+        batch.add("spec.dest %s %s %s" % (key, tsx, dsx), "spec.dest", {"case": case, "query": q},
+                  "outside-domain", "spec")
     if exp is not None:
         for q, r in zip(case["queries"], exp):
             key = ("b:" + q[1]) if q[0] == "b" else ("u:" + q[1].encode("utf-8").hex())
